@@ -387,16 +387,23 @@ def popcount_check(rep):
         rep.counts['discharged'] += 1
     # concrete differential on larger arrays (np.sum itself is trusted numpy), supplementary
     rng = np.random.default_rng(3)
-    for shape in ((1,), (5,), (2, 3), (2, 3, 4)):
+    # ... including sizes around powers of two far beyond the symbolic bound (an implementation may process large arrays in batches)
+    for shape in ((1,), (5,), (2, 3), (2, 3, 4), (2 ** 16 + 1,), (2 ** 20,), (2 ** 20 + 1,), (3, 2 ** 20 + 5), (2 ** 22 + 3,)):
         a = rng.integers(0, 256, shape, dtype=np.uint8)
         rep.counts['concolic_runs'] += 1
-        if int(kyupy.popcount(a)) != sum(bin(int(v)).count('1') for v in a.reshape(-1)):
-            rep.violation('popcount/sum', f'popcount({a.tolist()}) = {int(kyupy.popcount(a))}', {'mode': 'popcount', 'array': a.tolist()})
+        want = int(np.unpackbits(a.reshape(-1)).sum(dtype=np.int64))
+        if int(kyupy.popcount(a)) != want:
+            data = {'mode': 'popcount', 'random_shape': list(shape)} if a.size > 64 else {'mode': 'popcount', 'array': a.tolist()}
+            rep.violation('popcount/sum', f'popcount of a random uint8 array of shape {shape} = {int(kyupy.popcount(a))}, it has {want} one bits', data)
 
 
 def replay(data):
     if data['mode'] == 'string': return replay_string(data)
     if data['mode'] == 'pack': return replay_pack(data)
+    if 'random_shape' in data:
+        arr = np.random.default_rng(3).integers(0, 256, tuple(data['random_shape']), dtype=np.uint8)
+        got, want = int(kyupy.popcount(arr)), int(np.unpackbits(arr.reshape(-1)).sum(dtype=np.int64))
+        return got != want, f'popcount of a random uint8 array of shape {data["random_shape"]} = {got}, it has {want} one bits'
     arr = np.array(data.get('array', [255]), dtype=np.uint8)
     got, want = int(kyupy.popcount(arr)), sum(bin(int(v)).count('1') for v in arr.reshape(-1))
     return got != want, f'popcount({arr.tolist()}) = {got}, the array has {want} one bits'
